@@ -27,6 +27,9 @@ META = dict(
          "hook and result-backend failures incl. an outage over consecutive messages / acknowledgements that take time; the worker "
          "configured directly, through the real command line (with further worker options such as the sync-pool size mixed in) or "
          "through the real run_receiver_task); Further family (own random stream): the REAL taskiq.api.run_receiver_task coroutine runs for the whole scenario over a scripted listen() that raises 0..3 times (ConnectionError, RuntimeError, TimeoutError, OSError, EOFError, a client's own class, a falsy exception object, an ExceptionGroup, BrokerError) as the first thing a session does / right after taking a message / while tasks are in flight / while idle, the remaining messages going to the re-started listening; N and wait_tasks_timeout set by the receiver class handed to it, stop = the finish event it gave to listen(); decided by the direct oracles only, every listen() session held to the statement by its own messages; "
+         "further family (recv_props.gen_relisten): ONE Receiver object listens again after listen() failed, mostly while every slot "
+         "was busy - one count over all its sessions (what went down with a failed session's hand-over queue stops counting when the "
+         "next session begins); "
          "non-trivial iff finite A, backlog >= A+P+3 arriving within a burst shorter than the tasks (the worker saturates); "
          "distinct by canonical scenario",
     trusted_base=["model: coq/theories/RecvLTS.v (hand-written LTS of prefetcher / runner / look-ahead / hand-over queue)",
